@@ -15,7 +15,7 @@ type wrec struct {
 	bytes  []byte  // payload of a bytes record without children
 	kids   []*wrec // children of a known sub-message / map entry (nil otherwise)
 	hasKid bool
-	group  []byte // raw group content incl. end marker
+	group  []byte    // raw group content incl. end marker
 	ti     *TypeInfo // message type of kids (nil for map entries)
 	f      *Field    // schema field when known
 	// non-minimal encodings: extra continuation bytes
